@@ -379,6 +379,85 @@ def http_loopback_problems(rng, R):
     return problems
 
 
+# ------------------------------------------------------------------ one real multi-process run
+
+def process_mode_problems(rng, R):
+    """`pydcop solve --mode process` as a child process: the orchestrator plus one OS process per agent (multiprocessing
+    'spawn': the AgentDefs are pickled to the children), every message over HTTP on 127.0.0.1:9000+. Exact oracle: DPOP's
+    result must be the brute-force optimum and its reported cost the harness' accounting. The ports are fixed by the
+    runtime, so runs are serialised through a lock file; a run that cannot get the ports is skipped and counted."""
+    import fcntl
+    import os
+    import shutil
+    import subprocess
+    import sys
+    import tempfile
+    import time
+    from pydcop.dcop import yamldcop
+    from pv import orch
+    from pv.checks import c22
+
+    problems = []
+    case = gen.gen_case(rng, min_vars=3, max_vars=5, max_dom=3, palettes=("ties", "distinct", "float", "neg"), max_space=300, var_costs=False)
+    na = len(case["variables"]) + rng.randint(0, 1)
+    dcop, agents, algo_def, cg = orch.build_problem(case, "dpop", {}, na)
+    d = tempfile.mkdtemp(prefix="pvc15pm_")
+    lock = open("/tmp/pv_process_mode_ports.lock", "w")
+    try:
+        t0 = time.time()
+        while True:
+            try:
+                fcntl.flock(lock, fcntl.LOCK_EX | fcntl.LOCK_NB)
+                break
+            except OSError:
+                if time.time() - t0 > 90:
+                    R.bump("process_mode", "skipped: ports in use by another run")
+                    return problems
+                time.sleep(0.5)
+        with open(os.path.join(d, "dcop.yaml"), "w") as f:
+            f.write(yamldcop.dcop_yaml(dcop))
+        out = os.path.join(d, "result.json")
+        code = "import sys; sys.path.insert(0, %r); from pydcop.dcop_cli import main; sys.argv = ['pydcop'] + sys.argv[1:]; main()" % common.REPO
+        argv = [sys.executable, "-W", "ignore", "-c", code, "-t", "30", "--output", out, "solve", "--algo", "dpop", "-d", "oneagent",
+                "--mode", "process", os.path.join(d, "dcop.yaml")]
+        try:
+            pr = subprocess.run(argv, cwd=d, stdout=subprocess.PIPE, stderr=subprocess.STDOUT, text=True, timeout=120)
+        except subprocess.TimeoutExpired:
+            R.bump("process_mode", "inconclusive: command still running after 120 s")
+            return problems
+        if "Address already in use" in pr.stdout:
+            R.bump("process_mode", "skipped: ports in use by another program")
+            return problems
+        if not os.path.exists(out):
+            problems.append(("process-mode:no-result", "pydcop solve --mode process exited with code %s without a result file: %s" % (pr.returncode, pr.stdout[-300:])))
+            return problems
+        res = json.load(open(out))
+    finally:
+        try:
+            fcntl.flock(lock, fcntl.LOCK_UN)
+        except Exception:
+            pass
+        lock.close()
+        shutil.rmtree(d, ignore_errors=True)
+    R.bump("process_mode", "run judged")
+    R.count("process_mode_messages_between_processes", res.get("msg_count") or 0)
+    asg = res.get("assignment") or {}
+    vm = gen.var_map(case)
+    if res.get("status") != "FINISHED":
+        problems.append(("process-mode:status", "status %r (assignment %r)" % (res.get("status"), asg)))
+        return problems
+    if sorted(asg) != sorted(vm) or any(asg[n] not in vm[n]["domain"] for n in asg):
+        problems.append(("process-mode:assignment", "assignment %r for variables / domains %r" % (asg, {n: v["domain"] for n, v in vm.items()})))
+        return problems
+    got, best = gen.total_cost(case, asg), gen.brute_force(case)[0]
+    if not gen.close(got, best, 1e-9):
+        problems.append(("process-mode:not-optimal", "%s problem: assignment %r costs %r, optimum %r" % (case["objective"], asg, got, best)))
+    viol, cost = c22.accounting(case, asg)
+    if res.get("violation") != viol or not gen.close(res.get("cost"), cost, 1e-9):
+        problems.append(("process-mode:reported-cost", "reported cost %r / violation %r, accounting gives %r / %r" % (res.get("cost"), res.get("violation"), cost, viol)))
+    return problems
+
+
 # ------------------------------------------------------------------ harvest from discovery / replication harness
 
 def infra_harvest_problems(rng, R):
@@ -497,6 +576,8 @@ def worker(job):
             problems = same_name_problems(rng, R) + orchestration_problems(rng, R) + infra_harvest_problems(rng, R)
             if (i // 5) % 6 == 0:
                 problems += http_loopback_problems(rng, R)
+            if i % 200 == 3 and i < 2000:
+                problems += process_mode_problems(rng, R)
             sig = common.stable_hash(["infra", i, seed])
         else:
             problems = agentdef_problems(rng, R)
